@@ -280,8 +280,10 @@ end examples
 
 /-! ## The predicate is not vacuous the other way: skeletons that break it misbehave in the model -/
 
-/-- taking `in` before handshakeMutex in one path: two callers deadlock (neither can step, no
-interrupter can, and nobody has returned). -/
+/-- taking `in` before handshakeMutex: rejected by the lock-order clause.  (A single skeleton
+that uses the opposite order consistently cannot deadlock with itself; the clause pins the
+connection-wide order handshakeMutex → in that the other lock users — `Read` holding `in`,
+`ConnectionState` taking handshakeMutex — rely on.) -/
 private def swapped : List Stmt :=
   [.checkDone, .deferCancel, .deferJoin, .spawnIntr, .lock .inn, .deferUnlock .inn, .lock .hs, .deferUnlock .hs,
    .checkErr, .checkDone, .build, .body, .retErr]
